@@ -161,6 +161,9 @@ def run(pid, spec, tier):
     for name in spec.get("extra", []):
         if name == "quota_frame_scan":
             out.append(quota_frame_scan(pid))
+        elif name == "bounded_principal_text":
+            import bounded_standin
+            out.append(bounded_standin.principal_text(pid))
         elif name == "bounded_bignum_encoders":
             import bounded_standin
             out.append(bounded_standin.bignum_encoders(pid))
